@@ -2461,6 +2461,14 @@ impl Server {
                 .load_metric
                 .and_then(|n| LoadMetric::try_from(n).ok()),
         );
+        if cluster.health_check.is_none() {
+            // A cluster (re)defined without a health check: forget the probes
+            // in flight for it, like RemoveHealthCheck does. Their results would
+            // otherwise be recorded after the reset below, and with nothing
+            // probing the cluster any more a backend marked DOWN by such a late
+            // result would never come back.
+            self.health_checker.remove_cluster(&cluster.cluster_id);
+        }
         backends.set_health_check_config(&cluster.cluster_id, cluster.health_check.to_owned());
         backends.set_cluster_http2(&cluster.cluster_id, cluster.http2.unwrap_or(false));
     }
